@@ -182,6 +182,10 @@ class GateController:
                     elif self.stampwin and comm in ('redo', 'redo-ifchange') and fields.get('wrote', 0) > 0:
                         self.stampwin = False
                 if verdict == 'tree':
+                    # the request may arrive before the launcher has told us the process group
+                    t0 = time.time()
+                    while not self.pgid and time.time() - t0 < 10:
+                        time.sleep(0.001)
                     if self.pgid:
                         try:
                             os.killpg(self.pgid, 9)
